@@ -201,7 +201,10 @@ Fixpoint run (c : config) (s : state) (ls : list label) : result :=
    correspondence: a case is the configuration and, per harness operation, the labels the real
    sink produced and what was observed afterwards
    --------------------------------------------------------------------------------------------- *)
-Record obs := { o_active : list (Z * Z); o_idle : list Z; o_pending : list Z }.
+(* o_total = requests the harness has handed to the sink and not yet completed (its own count, independent of the hooks):
+   it must equal the model's [total], i.e. every completion - also of a request whose member has meanwhile left
+   or was contracted - reaches _OnPut *)
+Record obs := { o_active : list (Z * Z); o_idle : list Z; o_pending : list Z; o_total : Z }.
 Record case := { c_cfg : config; c_steps : list (list label * obs) }.
 
 Definition set_eqb (a b : list Z) : bool :=
@@ -209,7 +212,7 @@ Definition set_eqb (a b : list Z) : bool :=
 
 Definition obs_eqb (s : state) (o : obs) : bool :=
   list_eqb (pair_eqb Z.eqb Z.eqb) (map (fun m => (m_ep m, m_st m)) (active s)) (o_active o)
-  && set_eqb (idle s) (o_idle o) && set_eqb (pending s) (o_pending o).
+  && set_eqb (idle s) (o_idle o) && set_eqb (pending s) (o_pending o) && (total s =? o_total o).
 
 Fixpoint run_steps (c : config) (s : state) (steps : list (list label * obs)) : bool :=
   match steps with
